@@ -3,6 +3,7 @@ package main
 import (
 	"fmt"
 	"regexp"
+	"sort"
 	"strings"
 
 	"golang.org/x/tools/go/ssa"
@@ -348,4 +349,186 @@ func ruleTimestampFromStdTime(w *World, r *Report, rule string) {
 		ok = false
 	}
 	r.Check(ok, rule, "TimestampFromStdTime", w.pos(f.Pos()), "Timestamp(t.UTC().Unix()), 0 only for the zero time", "TimestampFromStdTime is not the plain 32-bit conversion of the Unix time ("+strings.Join(rs, " / ")+"): printed timestamps of the upper half of the 32-bit range do not parse back to themselves")
+}
+
+// ruleLoopFailureStops: inside a loop, when a call with an error result fails, the loop must not simply go on:
+// every way from the failure edge back to the same call passes a classification of that error (errors.Is/As,
+// os.IsNotExist, As...Error — the recognised "difference found / not exist" idioms, checked by the latch rules).
+// Otherwise the next iteration overwrites the error and the function can report success although one input failed.
+func ruleLoopFailureStops(w *World, r *Report, rule string, funcs []*ssa.Function) {
+	n := 0
+	for _, f := range funcs {
+		if f == nil || errResultIndex(f) < 0 {
+			continue
+		}
+		for _, c := range callsIn(f) {
+			cv, ok := c.(*ssa.Call)
+			if !ok || len(errorOfCall(cv)) == 0 {
+				continue
+			}
+			sig := cv.Common().Signature()
+			if k := sig.Results().Len(); k == 0 || !isErrorType(sig.Results().At(k-1).Type()) {
+				continue
+			}
+			if !inLoopWith(cv.Block()) {
+				continue
+			}
+			_, fail, ok := successEdge(cv)
+			if !ok {
+				continue
+			}
+			errs := errorOfCall(cv)
+			classifies := func(in ssa.Instruction) bool {
+				cc, ok := in.(*ssa.Call)
+				if !ok {
+					return false
+				}
+				sc := cc.Common().StaticCallee()
+				if sc == nil {
+					return false
+				}
+				if !(isPkgFunc(sc, "errors", "As") || isPkgFunc(sc, "errors", "Is") || isPkgFunc(sc, "os", "IsNotExist") || (strings.HasPrefix(sc.Name(), "As") && strings.HasSuffix(sc.Name(), "Error"))) {
+					return false
+				}
+				for _, a := range cc.Common().Args {
+					for _, e := range errs {
+						if a == e || flowsTo(e, a) {
+							return true
+						}
+					}
+				}
+				return false
+			}
+			// breadth-first from the failure edge; stop at returns and classifications
+			seen := map[*ssa.BasicBlock]bool{}
+			q := []*ssa.BasicBlock{fail}
+			again := false
+			for len(q) > 0 && !again {
+				b := q[0]
+				q = q[1:]
+				if seen[b] {
+					continue
+				}
+				seen[b] = true
+				stop := false
+				for _, in := range b.Instrs {
+					if in == ssa.Instruction(cv) {
+						again = true
+						break
+					}
+					if classifies(in) {
+						stop = true
+						break
+					}
+					if _, isRet := in.(*ssa.Return); isRet {
+						stop = true
+					}
+				}
+				if !stop && !again {
+					q = append(q, b.Succs...)
+				}
+			}
+			n++
+			key := funcName(f) + ":loop-failure:" + newExprCtx(w).callExpr(cv)
+			if len(key) > 150 {
+				key = key[:150]
+			}
+			if again {
+				r.Violate(rule, key, w.instrPos(cv), "when this call fails inside the loop the loop goes on and the call runs again: its error is overwritten by the next iteration and "+f.Name()+" can report success although one input failed")
+			} else {
+				r.OK(rule, key, w.instrPos(cv), "a failure leaves the loop (or is classified) before the call can run again")
+			}
+		}
+	}
+	if n == 0 {
+		r.OKTrivial(rule, "loop-failure", "-", "no error-returning call inside a loop in the functions examined")
+	}
+}
+
+// ruleArchiveIDDispatch (decision diagram): the functions that fan a command's archive selection out over a handle
+// (fetchTimeSeriesList, fetchRawPointsLists) are evaluated for a file of 2 archives and every selection in -3..3:
+// the per-archive reader must only ever be called with ids 0 and 1, "all" (-1) must call it for both, and every
+// other selection must end in a failure return without calling it. GetAllRawUnsortedPoints indexes the archive list
+// unchecked, so an id of 2 there is an index-out-of-range panic of view-raw (and of the /view-raw handler).
+func ruleArchiveIDDispatch(w *World, r *Report, rule string) {
+	const nArch = 2
+	ail := fn(w.Lib, "Whisper.ArchiveInfoList")
+	for _, spec := range []struct{ name, reader string }{{"fetchRawPointsLists", "Whisper.GetAllRawUnsortedPoints"}, {"fetchTimeSeriesList", "Whisper.FetchFromArchive"}} {
+		f := fn(w.Cmd, spec.name)
+		reader := fn(w.Lib, spec.reader)
+		key := spec.name + ":archive-id-dispatch"
+		if f == nil || reader == nil || len(f.Params) < 2 {
+			r.Undecided(rule, key, "-", spec.name+" or "+spec.reader+" not found")
+			continue
+		}
+		lenBind := map[ssa.Value]aval{}
+		eachInstr(f, func(in ssa.Instruction) {
+			c, ok := in.(*ssa.Call)
+			if !ok {
+				return
+			}
+			if b, ok := c.Call.Value.(*ssa.Builtin); ok && b.Name() == "len" {
+				for _, l := range leavesOf(c.Call.Args[0]) {
+					if ac, ok := stripChangeType(l).(*ssa.Call); ok && ail != nil && ac.Common().StaticCallee() == ail {
+						lenBind[c] = aval{k: kInt, i: nArch}
+					}
+				}
+			}
+		})
+		var bad []string
+		undec := ""
+		for id := int64(-3); id <= 3 && undec == ""; id++ {
+			e := &ddEngine{w: w, env: map[ssa.Value]aval{f.Params[1]: {k: kInt, i: id}}, maxLeafs: 64}
+			for k, v := range lenBind {
+				e.env[k] = v
+			}
+			called := map[int64]bool{}
+			badArg := ""
+			e.onCall = func(s *ddState, c *ssa.Call) {
+				if c.Common().StaticCallee() != reader {
+					return
+				}
+				a := e.value(s, c.Common().Args[1])
+				if a.k != kInt {
+					badArg = "a selection whose archive id is not determined by (selection, archive count)"
+					return
+				}
+				called[a.i] = true
+				if a.i < 0 || a.i >= nArch {
+					badArg = fmt.Sprintf("archive id %d on a file with %d archives", a.i, nArch)
+				}
+			}
+			e.run(f)
+			if e.err != nil {
+				undec = e.err.Error()
+				break
+			}
+			nOK := 0
+			for _, l := range e.leaves {
+				if l.ret != nil && !isFailureReturn(l.ret) {
+					nOK++
+				}
+			}
+			switch {
+			case badArg != "":
+				bad = append(bad, fmt.Sprintf("selection %d makes %s call %s with %s", id, spec.name, reader.Name(), badArg))
+			case id == -1 && !(called[0] && called[1]):
+				bad = append(bad, "the selection 'all' does not read every archive")
+			case id >= 0 && id < nArch && !called[id]:
+				bad = append(bad, fmt.Sprintf("selection %d does not read archive %d", id, id))
+			case (id < -1 || id >= nArch) && (nOK > 0 || len(called) > 0):
+				bad = append(bad, fmt.Sprintf("selection %d on a file with %d archives is not rejected", id, nArch))
+			}
+		}
+		if undec != "" {
+			r.Undecided(rule, key, w.pos(f.Pos()), "the decision diagram of "+spec.name+" could not be evaluated: "+undec)
+			continue
+		}
+		sort.Strings(bad)
+		first := ""
+		if len(bad) > 0 {
+			first = bad[0]
+		}
+		r.Check(len(bad) == 0, rule, key, w.pos(f.Pos()), "selections -3..3 on a 2-archive file: only ids 0 and 1 reach "+reader.Name()+", 'all' reads both, everything else fails", first+": an out-of-range archive id reaches code that indexes the archive list (panic) or a valid one is refused")
+	}
 }
